@@ -60,8 +60,9 @@ def normalise_return_names(repo) -> List[str]:
         params = {a.arg for a in f.node.args.args + f.node.args.kwonlyargs}
         used = {x.id for x in ast.walk(f.node) if isinstance(x, ast.Name)} | params
         mapping = {a: c for a, c in zip(actual, canon) if a != c}
-        # the canonical name must be free (or be one of the names that is itself renamed away), and a returned parameter keeps its name
-        if any(c in used and c not in mapping for c in mapping.values()) or any(a in params for a in mapping):
+        # the canonical name must be free in the function, and a returned parameter keeps its name.  Canonical names returned at another
+        # position are a permutation of the result, not a renaming: left as written for the rules to report.
+        if any(c in used for c in mapping.values()) or any(a in params for a in mapping):
             continue
         for x in ast.walk(f.node):
             if isinstance(x, ast.Name) and x.id in mapping:
